@@ -238,19 +238,19 @@ def tab9(units, R):
         for sg in segs:
             pr, nr = sg.start_root[ptr], sg.start_root[nam]
             break
+        cont_segs = [(sg, bp.pair_relation(ex, sg, (sg.start_root[nam], 0), (sg.start_root[ptr], 0)), sg.adv(ptr) == 1 and sg.adv(nam) == 1)
+                     for sg in segs if sg.end[0] == 'head']
         for y in range(1, 256):
             if y in (ord('~'), ord('/')):
                 continue
             for x in range(1, 256):
                 want = (x == y) if cs else (bp._tolower(x) == bp._tolower(y))
                 cont = False
-                for sg in segs:
-                    if sg.end[0] != 'head' or y not in sg.bytes_at(ptr) or x not in sg.bytes_at(nam):
-                        continue
-                    f = bp.feasible(ex, sg, {(sg.start_root[ptr], 0): y, (sg.start_root[nam], 0): x})
+                for (sg, rel, lockstep) in cont_segs:
+                    f = rel(x, y)
                     if f is None:
                         raise AnalysisBroken('TAB9: %s: a comparison on the path ending at line %d cannot be evaluated' % (fn.name, sg.line))
-                    if f and sg.adv(ptr) == 1 and sg.adv(nam) == 1:
+                    if f and lockstep:
                         cont = True
                     elif f:
                         cont = None
